@@ -38,6 +38,9 @@ macro_rules! h_proof {
         #[kani::stub(<std::os::fd::OwnedFd as std::ops::Drop>::drop, vgm::ghost_ownedfd_drop)]
         #[kani::stub(std::alloc::handle_alloc_error, vgm::ghost_alloc_error)]
         #[kani::stub(log::max_level, log_off)]
+        #[kani::stub(std::sync::Mutex::lock, vgm::ghost_mutex_lock)]
+        #[kani::stub(std::sync::RwLock::read, vgm::ghost_rwlock_read)]
+        #[kani::stub(std::sync::RwLock::write, vgm::ghost_rwlock_write)]
         fn $name() $body
     };
 }
@@ -353,7 +356,10 @@ macro_rules! c11_step {
             let old_kick = rr[q].kick;
             match op {
                 0 => {
-                    // SET_FEATURES without PROTOCOL_FEATURES: enables all rings
+                    // SET_FEATURES without PROTOCOL_FEATURES: enables all rings - whatever feature word was
+                    // acknowledged before (0 after a reset, the same word again, ...): an over-approximation
+                    // of the reachable pre-states, sound because the step must hold from all of them
+                    h.acked_features = kani::any();
                     vgm::vg().features |= PF;
                     let f = vgm::vg().features & !PF;
                     let r = h.set_features(f);
